@@ -31,6 +31,13 @@ def run(ck: Check) -> None:
 
     P, Pub = impl.common.PrivateKey, impl.common.PublicKey
     seeds = [bytes.fromhex(v[0]) for v in RFC8032] + [bytes(32), b"\xff" * 32, b"\x01" * 32]
+    seeds += [bytes([0]) + bytes(rng.getrandbits(8) for _ in range(31)), bytes([0, 0]) + bytes(rng.getrandbits(8) for _ in range(30)), bytes([0x0f]) + b"\xaa" * 31,
+              bytes(rng.getrandbits(8) for _ in range(31)) + bytes([0]), b"\x80" + bytes(31)]
+    for _ in range(3000):                       # a seed whose *public key* starts with a zero byte (1 in 256)
+        s0 = bytes(rng.getrandbits(8) for _ in range(32))
+        if gen.ed25519.Ed25519PrivateKey.from_private_bytes(s0).public_key().public_bytes(gen.serialization.Encoding.Raw, gen.serialization.PublicFormat.Raw)[0] == 0:
+            seeds.append(s0)
+            break
     seeds += [bytes(rng.getrandbits(8) for _ in range(32)) for _ in range(300 if ck.thorough else 40)]
     lines, expect = [], []
     ck.correspondences.add("corr:ed25519-vs-rfc8032-reference/bytes")
@@ -38,20 +45,25 @@ def run(ck: Check) -> None:
         msgs = [b"", b"a", bytes(rng.getrandbits(8) for _ in range(rng.choice([1, 31, 32, 63, 64, 95, 96, 111, 112, 127, 128, 129, 255, 256, 1000])))]
         if i < 3:
             msgs.insert(0, bytes.fromhex(RFC8032[i][2]))
-        k = P.from_bytes(seed)
-        pub = Pub.to_bytes(k.public_key())
+        try:
+            k = P.from_bytes(seed)
+            pub = Pub.to_bytes(k.public_key())
+            env = impl.signing.wrap_as_signable({"m": i})
+            impl.signing.sign_signable(env, k)
+            data = impl.common.canonserialize(env["signed"])
+            (filed_hex, entry), = env["signatures"].items()
+            to_hex = Pub.to_hex(k.public_key())
+        except Exception as e:  # noqa: BLE001
+            ck.violation("deriving / signing with a valid 32-byte seed failed", {"seed": seed.hex(), "error": repr(e)[:200]}, "seed-failed:" + type(e).__name__)
+            continue
         ck.oracle_checks += 1
         if i < 3 and pub.hex() != RFC8032[i][1]:
             ck.violation("public key derived by the library differs from the RFC 8032 test vector", {"seed": seed.hex(), "derived": pub.hex(), "rfc": RFC8032[i][1]}, "rfc-vector-pub")
         lines.append("prim pub x" + seed.hex())
         expect.append(("pub", seed, b"", "B " + pub.hex()))
         # the hex under which sign_signable files the entry, and the signature it stores
-        env = impl.signing.wrap_as_signable({"m": i})
-        impl.signing.sign_signable(env, k)
-        data = impl.common.canonserialize(env["signed"])
-        (filed_hex, entry), = env["signatures"].items()
         ck.oracle_checks += 1
-        if filed_hex != pub.hex() or Pub.to_hex(k.public_key()) != pub.hex():
+        if filed_hex != pub.hex() or to_hex != pub.hex():
             ck.violation("the hex under which a signature is filed is not the hex of the derived public key", {"seed": seed.hex(), "filed": filed_hex, "pub": pub.hex()}, "filed-hex")
         lines.append(f"prim sign x{seed.hex()} x{data.hex()}")
         expect.append(("sign", seed, data, "B " + entry["signature"]))
@@ -105,7 +117,8 @@ def run(ck: Check) -> None:
     for n in [0, 1, 16, 31, 33, 64]:
         cases += [Case("key", ["priv_from_bytes", bytes(n)], tag="bad-length"), Case("key", ["pub_from_bytes", bytes(n)], tag="bad-length")]
     h = seeds[6].hex()
-    for bad in [h.upper() if h.upper() != h else "A" + h[1:], h[:-2], h + "00", " " + h[1:], h[:-1] + " ", h[:-1], "0x" + h[2:], "", None, 5, seeds[6], [h], proto.Opaque(0)]:
+    for bad in [h.upper() if h.upper() != h else "A" + h[1:], h[:-2], h + "00", " " + h[1:], h[:-1] + " ", h[:-1], "0x" + h[2:], "", None, 5, seeds[6], [h], proto.Opaque(0),
+                h + "\n", " " + h, h + " ", "\t" + h, h[:32] + " " + h[32:], " ".join(h[i:i + 4] for i in range(0, 64, 4)), h + "\r\n", "0x" + h, h[:-1] + h[-1].upper() if h[-1].isalpha() else h[:-1] + "F"]:
         cases += [Case("key", ["priv_from_hex", bad], tag="bad-hex"), Case("key", ["pub_from_hex", bad], tag="bad-hex")]
     for bad in [None, 5, "x" * 32, list(range(32)), tuple(range(32)), proto.Opaque(0), h]:
         cases += [Case("key", ["priv_from_bytes", bad], tag="bad-kind"), Case("key", ["pub_from_bytes", bad], tag="bad-kind")]
@@ -121,12 +134,16 @@ def run(ck: Check) -> None:
     # conversion compositions return the same value (implementation-side oracle)
     for seed in seeds[:60]:
         ck.oracle_checks += 1
-        k = P.from_bytes(seed)
-        pk = k.public_key()
-        pb = Pub.to_bytes(pk)
-        ok = (P.to_bytes(P.from_hex(P.to_hex(P.from_bytes(seed)))) == seed and Pub.to_bytes(Pub.from_hex(Pub.to_hex(Pub.from_bytes(pb)))) == pb
-              and P.to_hex(k) == seed.hex() and Pub.to_hex(pk) == pb.hex() and P.is_equivalent_to(k, P.from_hex(seed.hex())) is True
-              and Pub.is_equivalent_to(pk, Pub.from_bytes(pb)) is True and Pub.is_equivalent_to(Pub.from_bytes(pb), pk) is True)
+        try:
+            k = P.from_bytes(seed)
+            pk = k.public_key()
+            pb = Pub.to_bytes(pk)
+            ok = (P.to_bytes(P.from_hex(P.to_hex(P.from_bytes(seed)))) == seed and Pub.to_bytes(Pub.from_hex(Pub.to_hex(Pub.from_bytes(pb)))) == pb
+                  and P.to_hex(k) == seed.hex() and Pub.to_hex(pk) == pb.hex() and P.is_equivalent_to(k, P.from_hex(seed.hex())) is True
+                  and Pub.is_equivalent_to(pk, Pub.from_bytes(pb)) is True and Pub.is_equivalent_to(Pub.from_bytes(pb), pk) is True)
+        except Exception as e:  # noqa: BLE001
+            ok = False
+            ck.notes.append("conversion raised: " + repr(e)[:120])
         if not ok:
             ck.violation("a conversion path among bytes / hex / key objects does not return the same value", {"seed": seed.hex()}, "conversion-roundtrip")
     # key files
